@@ -11,11 +11,10 @@ Lemma lscmp_true a : forall b, lscmp a b = true -> a = b.
 Proof.
   unfold lscmp. induction a as [|x a IH]; intros [|y b]; simpl; intros H;
     try reflexivity; try discriminate.
-  - rewrite andb_false_r in H. discriminate.
-  - apply andb_true_iff in H. destruct H as [H1 H2].
-    destruct (N.eqb_spec x y) as [->|Hn].
-    + f_equal. apply IH. simpl in H1. now rewrite H1, H2.
-    + simpl in H1. discriminate.
+  apply andb_true_iff in H. destruct H as [H1 H2].
+  destruct (N.eqb_spec x y) as [->|Hn].
+  - f_equal. apply IH. simpl in H1. now rewrite H1, H2.
+  - simpl in H1. discriminate.
 Qed.
 
 Lemma lscmp_refl a : lscmp a a = true.
